@@ -5,7 +5,9 @@ package encryption
 
 import (
 	"encoding/json"
+	"fmt"
 	"os"
+	"strings"
 	"testing"
 )
 
@@ -81,5 +83,84 @@ func TestLbvcScenarioDecryptData(t *testing.T) {
 	pt, err := h.decryptData(dek, data)
 	if err == nil && len(data) < 12+16 {
 		t.Fatalf("LBVC-REPRODUCED: decryptData returned %q for an input shorter than nonce+tag", pt)
+	}
+}
+
+// Property-level scenario (C17) for the obligations of Seal and unwrapDEK: what the handlers of one process seal and
+// read, in the orders the server uses them. (a) several values sealed one after the other and only then read back -
+// the partition's loop seals a whole batch before one Append - each reads back as itself; (b) a value sealed under one
+// master key is refused by a handler built with another master key, also AFTER its owner has read it; (c) a sealed
+// value with any single byte changed is refused.
+func TestLbvcScenarioHandlers(t *testing.T) {
+	keys := []string{"0123456789abcdef0123456789abcdef", "fedcba9876543210fedcba9876543210", "00112233445566778899aabbccddeeff"}
+	var hs []*LocalEncryptionHandler
+	for _, k := range keys {
+		os.Setenv("LIFTBRIDGE_ENCRYPTION_KEY", k)
+		h, err := NewLocalEncryptionHandler()
+		if err != nil {
+			t.Skipf("cannot build handler: %v", err)
+		}
+		hs = append(hs, h)
+	}
+	var problems []string
+	add := func(format string, a ...interface{}) {
+		if len(problems) < 4 {
+			problems = append(problems, fmt.Sprintf(format, a...))
+		}
+	}
+	// (a) a batch: equal lengths, then shorter, then longer
+	values := []string{"value-of-message-0", "value-of-message-1", "short", "", "a considerably longer value than any of the earlier ones"}
+	var sealed [][]byte
+	for _, v := range values {
+		s, err := hs[0].Seal([]byte(v))
+		if err != nil {
+			t.Skipf("Seal: %v", err)
+		}
+		sealed = append(sealed, s)
+	}
+	for i, s := range sealed {
+		pt, err := hs[0].Read(s)
+		if err != nil {
+			add("message %d of a batch sealed before any was stored: published %q, reading it back fails: %v", i, values[i], err)
+		} else if string(pt) != values[i] {
+			add("message %d of a batch sealed before any was stored: published %q, read back %q", i, values[i], pt)
+		}
+	}
+	// (b) other master keys, after the owner has read the value
+	for i, h := range hs {
+		s, err := h.Seal([]byte("the secret value"))
+		if err != nil {
+			continue
+		}
+		if pt, err := h.Read(s); err != nil || string(pt) != "the secret value" {
+			add("a value sealed under master key %d is not returned by its own handler: %q, %v", i, pt, err)
+		}
+		for j, other := range hs {
+			if j == i {
+				continue
+			}
+			if pt, err := other.Read(s); err == nil {
+				add("a value sealed under master key %d was returned (%q) by a handler with master key %d", i, pt, j)
+			}
+		}
+	}
+	// (c) tampering
+	s, _ := hs[0].Seal([]byte("the secret value"))
+	for i := range s {
+		c := append([]byte{}, s...)
+		c[i] ^= 0x01
+		func() {
+			defer func() {
+				if r := recover(); r != nil {
+					add("a sealed value with byte %d changed makes Read panic: %v", i, r)
+				}
+			}()
+			if pt, err := hs[0].Read(c); err == nil {
+				add("a sealed value with byte %d changed is returned as data %q", i, pt)
+			}
+		}()
+	}
+	if len(problems) > 0 {
+		t.Fatalf("LBVC-REPRODUCED (obligation %s): %s", os.Getenv("LBVC_OBLIGATION"), strings.Join(problems, "; "))
 	}
 }
